@@ -168,3 +168,41 @@ package curl
 //@   modifies c.l
 //@   modifies c.h
 //@   panics   never
+
+// ---- C06 stage 2: one block per call, batch sizes NL = 1, 2 and 64 (the outer slice is modelled as a
+// sequence of exactly NL trit slices). p is the state just before the transformation: lane j of its first
+// 243 words holds src[j], the lanes beyond the batch hold zero trits, the other words are untouched.
+
+//@ func (c *Curl) Absorb(src []trinary.Trits, tritsCount int) (err error)
+//@   props C06
+//@   repr uint
+//@   specialize NL = 1 2 64
+//@   seqlen src NL
+//@   let p = recv(Curl.transform, 1)
+//@   requires tritsCount == 243 && forall(j, 0, NL, len(src[j]) >= 243)
+//@   panics  when c.direction != SpongeAbsorbing
+//@   modifies c.l
+//@   modifies c.h
+//@   ensures isnil(err) && c.direction == SpongeAbsorbing
+//@   ensures forall(i, 0, 729, c.l[i] == st(81, i, 0, p.l, p.h) && c.h[i] == st(81, i, 1, p.l, p.h))
+//@   ensures forall(i, 0, 243, forall(j, 0, NL, bitset(p.l[i], uint(j)) == (src[j][i] <= 0) && bitset(p.h[i], uint(j)) == (src[j][i] >= 0)))
+//@   ensures forall(i, 0, 243, forall(j, NL, 64, bitset(p.l[i], uint(j)) && bitset(p.h[i], uint(j))))
+//@   ensures forall(i, 243, 729, p.l[i] == old(c.l[i]) && p.h[i] == old(c.h[i]))
+
+// Squeeze of one block: the state is transformed first exactly when the sponge was already squeezing;
+// lane j of the (new) state is written to a fresh 243-trit slice dst[j].
+//@ func (c *Curl) Squeeze(dst []trinary.Trits, tritsCount int) (err error)
+//@   props C06
+//@   repr uint
+//@   specialize NL = 1 2 64
+//@   seqlen dst NL
+//@   requires tritsCount == 243
+//@   panics  never
+//@   modifies c.l
+//@   modifies c.h
+//@   modifies c.direction
+//@   check   forall(j, 0, NL, len(dst[j]) == 243)
+//@   check   forall(j, 0, NL, forall(t, 0, 243, int(dst[j][t]) == trit(c.l[t], c.h[t], uint(j))))
+//@   ensures isnil(err) && c.direction == SpongeSqueezing
+//@   ensures implies(old(c.direction) == SpongeSqueezing, forall(i, 0, 729, c.l[i] == st(81, i, 0, old(c.l), old(c.h)) && c.h[i] == st(81, i, 1, old(c.l), old(c.h))))
+//@   ensures implies(old(c.direction) != SpongeSqueezing, forall(i, 0, 729, c.l[i] == old(c.l[i]) && c.h[i] == old(c.h[i])))
